@@ -23,6 +23,7 @@ import (
 )
 
 var ctr atomic.Uint64
+var hangs atomic.Int64
 
 func rnd() uint64 {
 	z := ctr.Add(0x9E3779B97F4A7C15)
@@ -48,6 +49,10 @@ func timed(name string, f func()) bool {
 		return true
 	case <-time.After(1500 * time.Millisecond):
 		fmt.Println("HANG", name)
+		if hangs.Add(1) >= 3 {
+			fmt.Println("STRESS-ABORTED too many hangs")
+			os.Exit(6)
+		}
 		return false
 	}
 }
@@ -125,6 +130,10 @@ func one(nc bool, mode int, fault string, withOp, twice, concurrentClose bool) {
 	case <-done:
 	case <-time.After(2 * time.Second):
 		fmt.Println("HANG operation")
+		if hangs.Add(1) >= 3 {
+			fmt.Println("STRESS-ABORTED too many hangs")
+			os.Exit(6)
+		}
 	}
 }
 
